@@ -103,7 +103,6 @@ func c08Wire(t *rm.Type, w []byte) *ev.Violation {
 func runC08(r *ev.Run, thorough bool) {
 	r.Rule = "per type: reference wires of V1 incl. non-canonical forms (over-long text cut, pad bytes everywhere, all-pad fields, stale computed fields) + every 1-byte substitution from {00,01,20,30,7F,80,FF}" + map[bool]string{true: " on every seed + every 2-byte substitution on the two base wires", false: " on the two base wires"}[thorough] + "; for each wire the library accepts: Encode(Decode(w)) == consumed bytes, differences allowed only inside self-computed fields which must then be correct; distinct = (type,wire); non-trivial = accepted by the decoder"
 	r.Assume("wires whose count/length prefix exceeds the input are explored by C09/C10 instead (resource-limited workers)")
-	var acc, rej int64
 	parTypes(r, bind.Types, func(t *rm.Type, l *ev.Local) {
 		a, rj := int64(0), int64(0)
 		small := encLen(valenum.Distinct(t)) <= 200
@@ -131,7 +130,6 @@ func runC08(r *ev.Run, thorough bool) {
 		r.Add("accepted_by_reference", a)
 		r.Add("rejected_by_reference", rj)
 	})
-	_, _ = acc, rej
 	r.Sample("szse.Logon seed D byte 3:=20 (pad byte inside SenderCompID) -> decode, re-encode, identical 92 bytes")
 	r.Set("bound", map[string]any{"wire_deviations": map[bool]string{false: "1 on base seeds", true: "1 on all seeds, 2 on base seeds of types <=200 bytes"}[thorough]})
 }
@@ -172,7 +170,6 @@ func cutField(t *rm.Type, w []byte, k int) string {
 
 func runC11(r *ev.Run, thorough bool) {
 	r.Rule = "per type: every canonical value of V1 (all list lengths 0..3 and 255..257, every registered key, empty and full texts; V2 of structural positions in thorough) x EVERY cut position 0..len-1: decoding the strict prefix must return an error; distinct = (type, prefix bytes); zero-length encodings have no strict prefix and are counted separately"
-	var zero int64
 	parTypes(r, bind.Types, func(t *rm.Type, l *ev.Local) {
 		seen := map[uint64]struct{}{}
 		k := 1
@@ -215,7 +212,6 @@ func runC11(r *ev.Run, thorough bool) {
 			return true
 		})
 	})
-	_ = zero
 	r.Sample("sse.ExecRptInfo D {.Pbu=n=3} cut at 17 of 46 -> error")
 	r.Set("bound", map[string]any{"k_deviations": k12(thorough), "cuts": "every position"})
 }
